@@ -27,10 +27,17 @@ def run(cmd):
 
 
 TAGS = ["-tags", os.environ["SEED_TAGS"]] if os.environ.get("SEED_TAGS") else []
+if os.environ.get("SEED_BLS_STUB"):
+    # packages importing the harmony router need the pure-Go stub of the cgo bls binding (as the harness does)
+    mf = os.path.join(wt, "_verif_go.mod")
+    open(mf, "w").write(open(os.path.join(wt, "go.mod")).read() +
+                        "\nreplace github.com/harmony-one/bls => %s\n" % os.path.join(ROOT, "harness", "stubs", "harmony-bls"))
+    shutil.copy(os.path.join(wt, "go.sum"), os.path.join(wt, "_verif_go.sum"))
+    TAGS = TAGS + ["-modfile=" + mf]
 
 
 def testset(pkgs):
-    rc, out = run(["go", "test", "-vet=off", "-count=1", "-json"] + pkgs)
+    rc, out = run(["go", "test", "-vet=off", "-count=1", "-json"] + [t for t in TAGS if t.startswith("-modfile")] + pkgs)
     res = {}
     for l in out.splitlines():
         try:
